@@ -228,10 +228,21 @@ func (e *C17) syncLevel(ctx *core.Ctx) {
 	eds.Spec.Strategy.RollingUpdate.SlowStartAdditiveIncrease = kit.IS(100)
 	rsB := kit.NewRS(s, eds, "foo-b", kit.Tpl("B"), kit.T0.Add(-time.Hour))
 	eds.Status.ActiveReplicaSet = "foo-b"
-	s.Inject(eds)
-	stB := s.Inject(rsB)
 	n := 4 + r.Intn(12)
 	mode := []string{"create", "update-delete", "cleanup"}[r.Intn(3)]
+	role := "active"
+	if mode == "cleanup" && r.Intn(2) == 0 {
+		// canary role: foo-b is the canary replica set of an (absent) active foo-a, on all nodes
+		role = "canary"
+		eds.Spec.Strategy.Canary = kit.NewEDS("ns", "x", "B", &v1.ExtendedDaemonSetSpecStrategyCanary{}).Spec.Strategy.Canary
+		eds.Status.ActiveReplicaSet = "foo-a"
+		eds.Status.Canary = &v1.ExtendedDaemonSetStatusCanary{ReplicaSet: "foo-b"}
+		for i := 0; i < n; i++ {
+			eds.Status.Canary.Nodes = append(eds.Status.Canary.Nodes, fmt.Sprintf("n%d", i))
+		}
+	}
+	s.Inject(eds)
+	stB := s.Inject(rsB)
 	tr := true
 	for i := 0; i < n; i++ {
 		name := fmt.Sprintf("n%d", i)
@@ -267,7 +278,7 @@ func (e *C17) syncLevel(ctx *core.Ctx) {
 	out := ctl.Reconcile("ers", "ns", "foo-b", "C")
 	s.Fault = nil
 	ctx.Count("evaluations")
-	attrs := map[string]string{"mode": mode}
+	attrs := map[string]string{"mode": mode, "role": role}
 	if out.Panic != "" {
 		attrs["panic"] = out.Panic
 		ctx.Violation("C17", "C17.no-panic", attrs, nil)
@@ -287,14 +298,18 @@ func (e *C17) syncLevel(ctx *core.Ctx) {
 	ctx.Count("C17.sync-level-judged")
 	st := statusWrite.Submitted.(*v1.ExtendedDaemonSetReplicaSet).Status
 	desc := map[string]any{"mode": mode, "nodes": n, "failedCalls": nFailed, "conditions": fmt.Sprintf("%+v", st.Conditions), "returnedErr": fmt.Sprint(out.Err)}
-	if !kit.CondTrue(&st, v1.ConditionTypeReconcileError) {
-		ctx.Violation("C17", "C17.error-reflected-in-condition", merge(attrs, "condition", "ReconcileError"), desc)
+	// "reflected in ... the replica set's ReconcileError or PodsCleanupDone condition"
+	recErr := kit.CondTrue(&st, v1.ConditionTypeReconcileError)
+	cleanupFalse := false
+	if c := kit.Cond(&st, v1.ConditionTypePodsCleanupDone); c != nil && c.Status == corev1.ConditionFalse {
+		cleanupFalse = true
 	}
 	if mode == "cleanup" {
-		c := kit.Cond(&st, v1.ConditionTypePodsCleanupDone)
-		if c == nil || c.Status != corev1.ConditionFalse {
-			ctx.Violation("C17", "C17.error-reflected-in-condition", merge(attrs, "condition", "PodsCleanupDone"), desc)
+		if !recErr && !cleanupFalse {
+			ctx.Violation("C17", "C17.error-reflected-in-condition", merge(attrs, "condition", "ReconcileError-or-PodsCleanupDone"), desc)
 		}
+	} else if !recErr {
+		ctx.Violation("C17", "C17.error-reflected-in-condition", merge(attrs, "condition", "ReconcileError"), desc)
 	}
 }
 
